@@ -287,4 +287,16 @@ def run(ctx):
     r07_3(ctx, A)
     r07_4(ctx, A, pv)
     r07_5(ctx, A, pv)
+    # R07.6 = R11.3: a buffering sink ends up with all bytes only if the flush is the last I/O on the raw sink
+    import rules.C11 as C11
+    C11.r11_3(ctx, A)
+    ctx.rules['R07.6'] = ctx.rules.pop('R11.3')
+    ctx.rules['R07.6']['title'] = 'finish protocol (= R11.3): footer and checksum are written before the final flush of the raw sink, nothing after it'
+    for v in ctx.violations:
+        if v['rule'] == 'R11.3':
+            v['rule'] = 'R07.6'
+            v['key'] = v['key'].replace('R11.3|', 'R07.6|', 1)
+    for sm in ctx.samples:
+        if sm['rule'] == 'R11.3':
+            sm['rule'] = 'R07.6'
     ctx.notes.append({'anchors': {'builder': A.builder, 'writer_field': A.b_wtr, 'counting_writer': A.cw, 'inner': A.cw_inner, 'counter': A.cw_cnt, 'checksum': A.cw_sum}})
